@@ -80,7 +80,7 @@ def parse_dump(path):
                 k += 1
                 if not st:
                     continue
-                m = re.match(r'__BB\((\d+)(?:,[^)]*)?\):', st)
+                m = re.match(r'__BB\((\d+)(?:,.*)?\):$', st)
                 if m:
                     cur = Block(int(m.group(1))); f.blocks.append(cur); continue
                 if cur is None:
@@ -253,6 +253,7 @@ __cxa_throw_bad_array_new_length __dynamic_cast _Unwind_Resume
 
 STD_RENDER_OK = re.compile(r'^std::(move|forward|min|max|addressof|__addressof)<')
 
+F2I_TYPES = {'long': 'long', 'int': 'int', 'unsigned long': 'ulong', 'unsigned int': 'uint', 'short': 'short', 'unsigned short': 'ushort', 'signed char': 'schar', 'unsigned char': 'uchar', 'char': 'schar', 'long long': 'long', 'unsigned long long': 'ulong'}
 BINOPS = {'+', '-', '*', '/', '%', '&', '|', '^', '<<', '>>', '==', '!=', '<', '>', '<=', '>=', '/[ex]',
           '&&', '||'}
 
@@ -789,6 +790,14 @@ def method_render(self):
                 if len(parts) == 3 and parts[1] in ('*', '/', '%', '+', '-') and '(' not in rhs:
                     mac = {'*': 'G2C_MUL', '/': 'G2C_DIV', '%': 'G2C_MOD', '+': 'G2C_ADD', '-': 'G2C_SUB'}[parts[1]]
                     lines.append('  %s = %s(%s, %s);' % (self.expr(lhs), mac, self.expr(parts[0]), self.expr(parts[2]))); continue
+                # float -> integer conversion: undefined outside the target range.  CBMC's own check is off by
+                # one at exactly -2^63, so the renderer states the exact range itself (rt.h, G2C_F2I_OK_*)
+                m2 = re.match(r'^\(([^()]*)\) (\S+)$', rhs)
+                if m2:
+                    tt = self.ctype(m2.group(1)) if UIDTOK.search(m2.group(1)) else None
+                    ot = self.vtype(m2.group(2))
+                    if tt and ot and re.search(r'\b(double|float)D_', ot) and tt in F2I_TYPES:
+                        lines.append('  __CPROVER_assert(G2C_F2I_OK_%s(%s), "g2c-safety: float-to-integer conversion within the range of %s");' % (F2I_TYPES[tt], self.expr(m2.group(2)), tt))
                 m2 = re.match(r'^~(\S+)$', rhs)
                 if m2:
                     lines.append('  %s = G2C_NOT(%s);' % (self.expr(lhs), self.expr(m2.group(1)))); continue
